@@ -3,4 +3,347 @@ import DswModel.Lemmas.Defs
 /-! Helper lemmas for `set_vt` (C07). -/
 namespace Dsw
 
+/-! ### nucleotide symbols -/
+
+theorem nucIdx_nucChar (j : Nat) (hj : j < 4) : nucIdx (nucChar j) = some j := by
+  have : j = 0 ∨ j = 1 ∨ j = 2 ∨ j = 3 := by omega
+  rcases this with h | h | h | h <;> subst h <;> decide
+
+theorem nucIdx_nucChar_isSome (j : Nat) : (nucIdx (nucChar j)).isSome = true := by
+  unfold nucChar
+  split
+  · decide
+  · split
+    · decide
+    · split <;> decide
+
+theorem nucChar_inj {i j : Nat} (hi : i < 4) (hj : j < 4) (h : nucChar i = nucChar j) : i = j := by
+  have h1 := nucIdx_nucChar i hi
+  have h2 := nucIdx_nucChar j hj
+  rw [h] at h1
+  rw [h1] at h2
+  exact Option.some.inj h2
+
+theorem nucChar_of_nucIdx {c : Char} {j : Nat} (h : nucIdx c = some j) : c = nucChar j := by
+  unfold nucIdx at h
+  split at h
+  · cases h; subst_vars; rfl
+  · split at h
+    · cases h; subst_vars; rfl
+    · split at h
+      · cases h; subst_vars; rfl
+      · split at h
+        · cases h; subst_vars; rfl
+        · cases h
+
+theorem nucIdx_lt {c : Char} {j : Nat} (h : nucIdx c = some j) : j < 4 := by
+  unfold nucIdx at h
+  split at h
+  · cases h; omega
+  · split at h
+    · cases h; omega
+    · split at h
+      · cases h; omega
+      · split at h
+        · cases h; omega
+        · cases h
+
+theorem nucIdx_getD_lt (c : Char) : (nucIdx c).getD 0 < 4 := by
+  cases h : nucIdx c with
+  | none => simp
+  | some j => simpa using nucIdx_lt h
+
+/-- two ACGT symbols with the same value are equal. -/
+theorem nucIdx_getD_inj {c d : Char} (hc : (nucIdx c).isSome = true) (hd : (nucIdx d).isSome = true)
+    (h : (nucIdx c).getD 0 = (nucIdx d).getD 0) : c = d := by
+  cases h1 : nucIdx c with
+  | none => simp [h1] at hc
+  | some i =>
+    cases h2 : nucIdx d with
+    | none => simp [h2] at hd
+    | some j =>
+      simp [h1, h2] at h
+      subst h
+      rw [nucChar_of_nucIdx h1, nucChar_of_nucIdx h2]
+
+/-! ### `IsAcgt` -/
+
+theorem isAcgt_nil : IsAcgt [] := by intro c hc; cases hc
+
+theorem isAcgt_cons {c : Char} {s : List Char} :
+    IsAcgt (c :: s) ↔ (nucIdx c).isSome = true ∧ IsAcgt s := by
+  simp [IsAcgt]
+
+theorem isAcgt_append {s t : List Char} : IsAcgt (s ++ t) ↔ IsAcgt s ∧ IsAcgt t := by
+  simp only [IsAcgt, List.mem_append]
+  constructor
+  · intro h; exact ⟨fun c hc => h c (Or.inl hc), fun c hc => h c (Or.inr hc)⟩
+  · rintro ⟨h1, h2⟩ c (hc | hc)
+    · exact h1 c hc
+    · exact h2 c hc
+
+theorem isAcgt_take {s : List Char} (h : IsAcgt s) (p : Nat) : IsAcgt (s.take p) :=
+  fun c hc => h c (List.mem_of_mem_take hc)
+
+theorem isAcgt_drop {s : List Char} (h : IsAcgt s) (p : Nat) : IsAcgt (s.drop p) :=
+  fun c hc => h c (List.mem_of_mem_drop hc)
+
+theorem isAcgt_set {s : List Char} (h : IsAcgt s) (p : Nat) {x : Char}
+    (hx : (nucIdx x).isSome = true) : IsAcgt (s.set p x) := by
+  intro c hc
+  rcases List.mem_or_eq_of_mem_set hc with h' | h'
+  · exact h c h'
+  · subst h'; exact hx
+
+theorem isAcgt_eraseIdx {s : List Char} (h : IsAcgt s) (p : Nat) : IsAcgt (s.eraseIdx p) :=
+  fun c hc => h c (List.mem_of_mem_eraseIdx hc)
+
+theorem isAcgt_insert {s : List Char} (h : IsAcgt s) (p : Nat) {x : Char}
+    (hx : (nucIdx x).isSome = true) : IsAcgt (s.take p ++ [x] ++ s.drop p) := by
+  rw [isAcgt_append, isAcgt_append]
+  refine ⟨⟨isAcgt_take h p, ?_⟩, isAcgt_drop h p⟩
+  exact isAcgt_cons.2 ⟨hx, isAcgt_nil⟩
+
+/-! ### `nucValues` -/
+
+theorem nucValues_ok {s : List Char} (hs : IsAcgt s) :
+    nucValues s = .ok (s.map fun c => (nucIdx c).getD 0) := by
+  induction s with
+  | nil => rfl
+  | cons c s ih =>
+    rw [isAcgt_cons] at hs
+    cases h : nucIdx c with
+    | none => simp [h] at hs
+    | some j => simp [nucValues, h, ih hs.2, Except.map]
+
+theorem nucValues_err {s : List Char} (hs : ¬ IsAcgt s) : nucValues s = .error .valueError := by
+  induction s with
+  | nil => exact absurd isAcgt_nil hs
+  | cons c s ih =>
+    cases h : nucIdx c with
+    | none => simp [nucValues, h]
+    | some j =>
+      have : ¬ IsAcgt s := fun h' => hs (isAcgt_cons.2 ⟨by simp [h], h'⟩)
+      simp [nucValues, h, ih this, Except.map]
+
+/-! ### sums of nucleotide values under single edits -/
+
+theorem foldl_add_eq_sum (l : List Nat) (a : Nat) : l.foldl (· + ·) a = a + l.sum := by
+  induction l generalizing a with
+  | nil => simp
+  | cons x l ih => simp [ih]; omega
+
+theorem sum_vals_set_mod_ne (s : List Char) (p : Nat) (x : Char) (hs : IsAcgt s)
+    (hp : p < s.length) (hx : (nucIdx x).isSome = true) (hne : s[p]? ≠ some x) :
+    (s.map fun c => (nucIdx c).getD 0).sum % 4 ≠
+      ((s.set p x).map fun c => (nucIdx c).getD 0).sum % 4 := by
+  induction s generalizing p with
+  | nil => simp at hp
+  | cons c s ih =>
+    rw [isAcgt_cons] at hs
+    cases p with
+    | zero =>
+      have hcx : c ≠ x := by simpa using hne
+      have hv : (nucIdx c).getD 0 ≠ (nucIdx x).getD 0 := fun h => hcx (nucIdx_getD_inj hs.1 hx h)
+      have h1 := nucIdx_getD_lt c
+      have h2 := nucIdx_getD_lt x
+      simp only [List.set_cons_zero, List.map_cons, List.sum_cons]
+      omega
+    | succ p =>
+      have := ih p hs.2 (by simpa using hp) (by simpa using hne)
+      simp only [List.set_cons_succ, List.map_cons, List.sum_cons]
+      omega
+
+theorem sum_vals_insert (s : List Char) (p : Nat) (x : Char) :
+    ((s.take p ++ [x] ++ s.drop p).map fun c => (nucIdx c).getD 0).sum =
+      (s.map fun c => (nucIdx c).getD 0).sum + (nucIdx x).getD 0 := by
+  have h : (s.map fun c => (nucIdx c).getD 0).sum =
+      ((s.take p).map fun c => (nucIdx c).getD 0).sum +
+        ((s.drop p).map fun c => (nucIdx c).getD 0).sum := by
+    rw [← List.sum_append, ← List.map_append, List.take_append_drop]
+  rw [h]
+  simp only [List.map_append, List.sum_append, List.map_cons, List.map_nil, List.sum_cons,
+    List.sum_nil]
+  omega
+
+theorem sum_vals_eraseIdx (s : List Char) (p : Nat) (y : Char) (hy : s[p]? = some y) :
+    (s.map fun c => (nucIdx c).getD 0).sum =
+      ((s.eraseIdx p).map fun c => (nucIdx c).getD 0).sum + (nucIdx y).getD 0 := by
+  induction s generalizing p with
+  | nil => simp at hy
+  | cons c s ih =>
+    cases p with
+    | zero =>
+      have : c = y := by simpa using hy
+      subst this
+      simp only [List.eraseIdx_cons_zero, List.map_cons, List.sum_cons]
+      omega
+    | succ p =>
+      have := ih p (by simpa using hy)
+      simp only [List.eraseIdx_cons_succ, List.map_cons, List.sum_cons]
+      omega
+
+/-! ### `ascentSum` is the declarative position sum -/
+
+theorem ascentSum_eq_map (vals : List Nat) (i : Nat) :
+    ascentSum vals i =
+      (((List.range (vals.length - 1)).filter fun j => vals.getD j 0 < vals.getD (j + 1) 0).map
+        (· + i)).sum := by
+  induction vals generalizing i with
+  | nil => simp [ascentSum]
+  | cons x t ih =>
+    cases t with
+    | nil => simp [ascentSum]
+    | cons y r =>
+      rw [ascentSum, ih (i + 1)]
+      have hlen : (x :: y :: r).length - 1 = ((y :: r).length - 1) + 1 := by simp
+      rw [hlen, List.range_succ_eq_map, List.filter_cons, List.filter_map]
+      have hf : ((fun j => decide ((x :: y :: r).getD j 0 < (x :: y :: r).getD (j + 1) 0)) ∘ Nat.succ)
+          = fun j => decide ((y :: r).getD j 0 < (y :: r).getD (j + 1) 0) := by
+        funext j; simp
+      rw [hf]
+      have hm : ∀ l : List Nat, ((l.map Nat.succ).map (· + i)).sum = (l.map (· + (i + 1))).sum := by
+        intro l
+        rw [List.map_map]
+        congr 1
+        apply List.map_congr_left
+        intro a _
+        simp only [Function.comp]
+        omega
+      by_cases hxy : x < y
+      · have hd : decide ((x :: y :: r).getD 0 0 < (x :: y :: r).getD (0 + 1) 0) = true := by
+          simpa using hxy
+        rw [if_pos hxy, if_pos hd, List.map_cons, List.sum_cons, hm]
+        omega
+      · have hd : ¬ decide ((x :: y :: r).getD 0 0 < (x :: y :: r).getD (0 + 1) 0) = true := by
+          simpa using hxy
+        rw [if_neg hxy, if_neg hd, hm]
+        omega
+
+theorem ascentSum_zero (vals : List Nat) :
+    ascentSum vals 0 =
+      ((List.range (vals.length - 1)).filter fun j => vals.getD j 0 < vals.getD (j + 1) 0).sum := by
+  rw [ascentSum_eq_map]
+  simp
+
+/-! ### base-4 digits -/
+
+/-- the value accumulated by `kmerIdx` from a start value. -/
+theorem kmerIdx_foldl_digitsNat (n : Nat) (acc : List Nat) :
+    ((digitsNat 4 n acc).map nucChar).foldl (fun m c => m * 4 + (nucIdx c).getD 0) 0 =
+      (acc.map nucChar).foldl (fun m c => m * 4 + (nucIdx c).getD 0) n := by
+  induction n using Nat.strongRecOn generalizing acc with
+  | _ n ih =>
+    rw [digitsNat]
+    by_cases h0 : n = 0
+    · subst h0; simp
+    · have hc : ¬ (n = 0 ∨ 4 < 2) := by omega
+      rw [dif_neg hc, ih (n / 4) (by omega)]
+      simp only [List.map_cons, List.foldl_cons]
+      rw [nucIdx_nucChar (n % 4) (by omega)]
+      simp only [Option.getD_some]
+      have : n / 4 * 4 + n % 4 = n := by omega
+      rw [this]
+
+theorem digitsNat_length_le (w n : Nat) (acc : List Nat) (h : n < 4 ^ w) :
+    (digitsNat 4 n acc).length ≤ w + acc.length := by
+  induction w generalizing n acc with
+  | zero =>
+    have : n = 0 := by simpa using h
+    subst this
+    rw [digitsNat]; simp
+  | succ w ih =>
+    rw [digitsNat]
+    by_cases h0 : n = 0
+    · subst h0; simp
+    · have hc : ¬ (n = 0 ∨ 4 < 2) := by omega
+      rw [dif_neg hc]
+      have : n / 4 < 4 ^ w := by
+        rw [Nat.pow_succ] at h
+        omega
+      have := ih (n / 4) (n % 4 :: acc) this
+      simp only [List.length_cons] at this
+      omega
+
+theorem numberToDnaInt_length (v w : Nat) (h : v < 4 ^ w) : (numberToDnaInt v w).length = w := by
+  have := digitsNat_length_le w v [] h
+  simp only [List.length_nil] at this
+  simp only [numberToDnaInt, padDna, List.length_append, List.length_replicate, List.length_map]
+  omega
+
+theorem kmerIdx_replicate_A_append (k : Nat) (l : List Char) :
+    kmerIdx (List.replicate k 'A' ++ l) = kmerIdx l := by
+  unfold kmerIdx
+  rw [List.foldl_append]
+  congr 1
+  induction k with
+  | zero => rfl
+  | succ k ih =>
+    rw [List.replicate_succ, List.foldl_cons]
+    have : (0 * 4 + (nucIdx 'A').getD 0) = 0 := by decide
+    rw [this, ih]
+
+theorem kmerIdx_numberToDnaInt (v w : Nat) : kmerIdx (numberToDnaInt v w) = v := by
+  unfold numberToDnaInt padDna
+  rw [kmerIdx_replicate_A_append]
+  unfold kmerIdx
+  rw [kmerIdx_foldl_digitsNat]
+  rfl
+
+theorem isAcgt_numberToDnaInt (v w : Nat) : IsAcgt (numberToDnaInt v w) := by
+  intro c hc
+  simp only [numberToDnaInt, padDna, List.mem_append, List.mem_replicate, List.mem_map] at hc
+  rcases hc with ⟨_, rfl⟩ | ⟨j, _, rfl⟩
+  · decide
+  · exact nucIdx_nucChar_isSome j
+
+/-! ### `setVt` -/
+
+theorem setVt_ok {s : List Char} (n : Nat) (hs : IsAcgt s) :
+    setVt s n = .ok (nucChar ((s.map fun c => (nucIdx c).getD 0).sum % 4) ::
+      numberToDnaInt
+        (((List.range ((s.map fun c => (nucIdx c).getD 0).length - 1)).filter fun j =>
+          (s.map fun c => (nucIdx c).getD 0).getD j 0 <
+            (s.map fun c => (nucIdx c).getD 0).getD (j + 1) 0).sum % 4 ^ (n - 1)) (n - 1)) := by
+  unfold setVt
+  rw [nucValues_ok hs]
+  simp only [Except.map, foldl_add_eq_sum, Nat.zero_add, ascentSum_zero]
+
+theorem setVt_err {s : List Char} (n : Nat) (hs : ¬ IsAcgt s) : setVt s n = .error .valueError := by
+  unfold setVt
+  rw [nucValues_err hs]
+  rfl
+
+/-- every check has exactly the requested length. -/
+theorem setVt_length {s c : List Char} {n : Nat} (hn : 1 ≤ n) (h : setVt s n = .ok c) :
+    c.length = n := by
+  by_cases hs : IsAcgt s
+  · rw [setVt_ok n hs] at h
+    cases h
+    rw [List.length_cons, numberToDnaInt_length _ _ (Nat.mod_lt _ (Nat.pow_pos (by omega)))]
+    omega
+  · rw [setVt_err n hs] at h
+    cases h
+
+/-- if the value sums differ mod 4, the first symbols of the checks differ. -/
+theorem setVt_head_ne {s s' : List Char} (n : Nat) (hs : IsAcgt s) (hs' : IsAcgt s')
+    (hne : (s.map fun c => (nucIdx c).getD 0).sum % 4 ≠
+      (s'.map fun c => (nucIdx c).getD 0).sum % 4) :
+    ∃ c c', setVt s n = .ok c ∧ setVt s' n = .ok c' ∧ c.head? ≠ c'.head? := by
+  refine ⟨_, _, setVt_ok n hs, setVt_ok n hs', ?_⟩
+  simp only [List.head?_cons, ne_eq, Option.some.injEq]
+  intro h
+  exact hne (nucChar_inj (Nat.mod_lt _ (by omega)) (Nat.mod_lt _ (by omega)) h)
+
+/-- a check whose first symbol differs from the strand's own check is rejected. -/
+theorem vtMatches_false {s' c c' : List Char} {n : Nat} (hlen : c.length = n)
+    (hc' : setVt s' n = .ok c') (hne : c.head? ≠ c'.head?) :
+    vtMatches s' (some c) = .ok false := by
+  unfold vtMatches
+  simp only [hlen, hc', Except.map]
+  congr 1
+  rw [beq_eq_false_iff_ne]
+  intro h
+  exact hne (by rw [h])
+
 end Dsw
